@@ -379,7 +379,7 @@ func main() {
 			try(mk(v), "extended")
 		}
 		if s.Kind == "basic" {
-			try("ok\x00", "core")    // empty password
+			try("ok\x00", "core") // empty password
 			try("okü\x00pä", "extended")
 		}
 	}
